@@ -795,7 +795,8 @@ class C08(Prop):
         "(C08_three_point_length_refuted, C08_three_point_late: the complementary arc is measured, as blockMesh does)",
         "C08_chord_bound: arc edges of all kinds and polylines (spline, polyLine); OnCurve edges measure a polyline through "
         "sampled curve points, the bound holds for that polyline between the sampled end points; that those coincide with the "
-        "vertices is C16/C17 (checked here by the direct oracle only)",
+        "vertices is C16/C17 (checked here by the direct oracle only, including OnCurve edges on a full CircleCurve with a vertex "
+        "next to the seam of the parameter range: stratum 'seam' of the chord cases)",
         "C08_origin: stated for origin = centre of the circle through the end points (flatness 1, included angle < pi); "
         "the adjusted-centre and flatness branches are covered by the correspondence and the oracle only",
     ]
